@@ -426,7 +426,9 @@ CmdDoneViol(ev) ==
                           /\ (r.st = pre[i].st \/ pre[i].st \in ActiveStatuses)
                           /\ r.flows = pre[i].flows /\ r.sub = pre[i].sub /\ r.held = pre[i].held
                           /\ (r.outs = pre[i].outs \/ (pre[i].st \in ActiveStatuses /\ pre[i].outs \subseteq r.outs))
-                          /\ r.sat = pre[i].sat
+                          \* (prerequisites satisfied before stay satisfied; one may become satisfied only by an
+                          \*  output that was completed while the reload waited, never from older records)
+                          /\ pre[i].sat \subseteq r.sat /\ (r.sat \ pre[i].sat) \subseteq (done \ env.cmdDone0)
                           /\ (~pre[i].rh => ~r.rh)
                  \* (a task with a job out whose final message was processed during the wait finished and left)
                  \/ (i \notin SyncIds(ev) /\ pre[i].st \in ActiveStatuses /\ \E c \in env.completedIn : c[1] = i)
@@ -581,6 +583,11 @@ EndViol(ev) ==
          clean => ((Launched \subseteq Expected /\ (Expected \ Launched) \subseteq (BeyondStopAlt \cup NeverReached))
                      \/ PrintT(<<"DIAG", tid, "closure: launched-not-expected", Launched \ Expected,
                                  "expected-not-launched", Expected \ Launched>>) = FALSE))
+  \* C46: after a warm start exactly the closure from the start point runs (prerequisites on instances before
+  \* the start point count as satisfied, nothing before it runs, nothing from it on is skipped)
+  \cup Chk("C46_ExactClosureFromStart",
+         (clean /\ W.start > W.icp) =>
+            (Launched \subseteq Expected /\ (Expected \ Launched) \subseteq (BeyondStopAlt \cup NeverReached)))
   \* recorded separately: cylc refuses to spawn an instance any of whose prerequisite atoms lies beyond the
   \* stop point, even when an OR alternative is satisfied (see known_findings.txt)
   \cup Chk("C01_ExactClosure_BeyondStopAlternative", clean => (Expected \ Launched) \cap BeyondStopAlt = {})
@@ -638,6 +645,7 @@ EndCov(ev) == Cov("C10_FinalMatchesJob", env.succeeded # {} /\ ev.reason \in {"A
               \cup Cov("C19_SameOutcome", Opt.hastwin /\ env.downkind = "stop")
               \cup Cov("C20_NoLoss", Opt.hastwin /\ env.downkind = "crash")
               \cup Cov("C01_ExactClosure", ~Opt.manual /\ ~env.incomplete /\ ev.reason = "AUTOMATIC")
+              \cup Cov("C46_ExactClosureFromStart", ~Opt.manual /\ ~env.incomplete /\ ev.reason = "AUTOMATIC" /\ W.start > W.icp)
               \cup Cov("C01_ShutsDown", ~Opt.manual /\ ~env.incomplete /\ Opt.allcomplete /\ ~Opt.stopreq /\ ~W.hassuicide /\ NoStuck)
 
 -----------------------------------------------------------------------------
@@ -706,6 +714,7 @@ NextEnv(ev) ==
                      !.rm = IF ev.name = "remove_tasks"
                             THEN [active |-> TRUE, ok |-> ~@.active, ids |-> ev.ids, flow |-> ev.flow]
                             ELSE [@ EXCEPT !.ok = FALSE],
+                     !.cmdDone0 = done,
                      !.cmdpre = pool, !.cmdname = ev.name, !.cmdids = ev.ids, !.cmdflow = ev.flow, !.forcedSince = {},
                      !.trig = IF ev.name = "force_trigger_tasks"
                               THEN LET real == {i \in ev.ids : ValidPoint(W, Name(i), Pt(i)) /\ InBounds(W, Pt(i))} IN
@@ -827,7 +836,7 @@ Init == /\ tid \in DOMAIN Runs
         /\ hist = <<>>
         /\ env = [stop |-> NoPoint, tohold |-> {}, holdpt |-> NoPoint, restarted |-> FALSE, incomplete |-> FALSE,
                   prestop |-> <<>>, prescal |-> <<>>, downkind |-> "none", committed |-> {}, poolcommitted |-> FALSE, lostAtCrash |-> {}, earlyCrash |-> FALSE, hadStopTask |-> FALSE, hadDup |-> FALSE, committedAtCrash |-> {}, jobsSinceBoot |-> {}, spawnedSinceBoot |-> {}, jobs |-> {}, succeeded |-> {}, failedjobs |-> {}, tainted |-> {}, seenMsgs |-> {}, xtActive |-> {}, xtLast |-> <<>>, xtOK |-> {}, xtOKold |-> {}, xtEverOK |-> {}, xtLastOK |-> {}, xtNeeders |-> <<>>, flowsEver |-> {},
-                  trig |-> [ids |-> {}, done |-> {}, n |-> <<>>, dflt |-> FALSE, live |-> {}, stale |-> {}, ran |-> {}], clock |-> 0, dueprev |-> {}, cmdStop |-> NoPoint, rm |-> [active |-> FALSE, ok |-> FALSE, ids |-> {}, flow |-> {}], cmdpre |-> <<>>, cmdname |-> "none", cmdids |-> {},
+                  trig |-> [ids |-> {}, done |-> {}, n |-> <<>>, dflt |-> FALSE, live |-> {}, stale |-> {}, ran |-> {}], clock |-> 0, dueprev |-> {}, cmdStop |-> NoPoint, rm |-> [active |-> FALSE, ok |-> FALSE, ids |-> {}, flow |-> {}], cmdDone0 |-> {}, cmdpre |-> <<>>, cmdname |-> "none", cmdids |-> {},
                   cmdflow |-> {}, forcedSince |-> {}, completedIn |-> {}, flowctr |-> 0]
         /\ viol = {}
         /\ cov = {}
